@@ -236,6 +236,8 @@ def run(ctx):
                 md = {"漢字": rng.choice(["漢", "é", "😀", "漢é😀a"]) * rng.choice([4000, 9000, 20000])}
             t = gen.time_value(rng)
             sz = len(data)
+            if data and rng.random() < 0.12:
+                sz = 0        # other writers leave the size at 0 when they do not know it; the data is still the data
             ref.append_record(cache, k, ref.entry_json(k, sri, t, sz, md, raw, style=style))
             nrec += 1
             truth[k] = ({"key": k, "integrity": sri, "time": t, "size": sz, "metadata": md, "raw_metadata": raw}, data)
